@@ -107,7 +107,7 @@ class _Span:
 class Task:
     """A Mode-T task (real thread holding or waiting for the baton)."""
     __slots__ = ("name", "fn", "thread", "sem", "state", "pred", "deadline",
-                 "result", "exc", "daemon_task", "timed_out", "held")
+                 "result", "exc", "daemon_task", "timed_out", "held", "what", "daemon_task_ok")
 
     def __init__(self, name, fn, daemon_task=False):
         self.name = name
@@ -123,6 +123,8 @@ class Task:
         self.daemon_task = daemon_task   # receive tasks: not awaited at the end
         self.timed_out = False
         self.held = 0
+        self.what = ""
+        self.daemon_task_ok = False     # exceptions of this task do not end the run
 
 
 class Ctx:
@@ -327,24 +329,69 @@ class Ctx:
         return bool(self.heap)
 
     # ---- Mode T -------------------------------------------------------
+    sched_policy = 0
+    _end_reason = None
+    in_sched = False
+    preempt_at = ()         # line-event counts at which a task is pre-empted
+    trace_root = None       # only lines of files under this directory count
+    line_events = 0
+    preemptions = 0
+
+    def enable_threads(self, policy=0, preempt_at=(), trace_root=None):
+        """Switch this run to Mode T (before the world is built)."""
+        self.threaded = True
+        self.sched_hash = hashlib.blake2b(digest_size=8)
+        self.sched_policy = policy
+        self.preempt_at = frozenset(preempt_at)
+        self.trace_root = trace_root
+
     def spawn(self, name, fn, daemon_task=False):
         t = Task(name, fn, daemon_task)
         self.tasks.append(t)
         return t
 
+    def _tracer(self, frame, event, arg):
+        # global trace function of a task thread: trace only canopen frames
+        if frame.f_code.co_filename.startswith(self.trace_root):
+            return self._line_tracer
+        return None
+
+    def _line_tracer(self, frame, event, arg):
+        if event == "line":
+            self.line_events += 1
+            if self.line_events in self.preempt_at and not self.in_sched and not self.aborting:
+                me = self.current
+                if me is not None and threading.current_thread() is me.thread:
+                    self.preemptions += 1
+                    self.log("preempt", me.name, frame.f_code.co_name, frame.f_lineno)
+                    self._dispatch(me, preempted=True)
+        return self._line_tracer
+
     def _thread_main(self, task):
-        task.sem.acquire()              # wait for first baton
+        task.sem.acquire()              # wait for the first baton
         try:
             if self.aborting:
                 raise SimAbort()
+            if self.preempt_at:
+                import sys
+                sys.settrace(self._tracer)
             task.result = task.fn()
         except SimAbort:
-            pass
+            task.state = "done"
+            return
         except BaseException as e:      # noqa
             task.exc = e
+        finally:
+            if self.preempt_at:
+                import sys
+                sys.settrace(None)
         task.state = "done"
+        if self.aborting:
+            return
         self.log("task-done", task.name, type(task.exc).__name__ if task.exc else None)
-        # hand the baton on; never returns to this thread
+        if task.exc is not None and self._end_reason is None and not task.daemon_task_ok:
+            self._end_reason = task.exc
+        # hand the baton on; this thread ends
         self._dispatch(task, final=True)
 
     def run_tasks(self):
@@ -354,10 +401,10 @@ class Ctx:
             raise HarnessError("run_tasks in Mode I")
         self.main_sem = threading.Lock()
         self.main_sem.acquire()
+        self._end_reason = None
         for t in self.tasks:
             t.thread = threading.Thread(target=self._thread_main, args=(t,), daemon=True)
             t.thread.start()
-        self._end_reason = None
         self._dispatch(None)
         self.main_sem.acquire()         # parked until the run ends
         # unwind whatever is still parked
@@ -366,13 +413,16 @@ class Ctx:
             if t.state != "done":
                 self.current = t
                 t.sem.release()
-                t.thread.join(5.0)
-                if t.thread.is_alive():
-                    raise HarnessError("task %s did not unwind" % t.name)
+            t.thread.join(10.0)
+            if t.thread.is_alive():
+                raise HarnessError("task %s did not unwind" % t.name)
         self.current = None
+        self.aborting = False
         self.threaded_finished = True
-        if isinstance(self._end_reason, BaseException):
-            raise self._end_reason
+        r = self._end_reason
+        self._end_reason = None
+        if isinstance(r, BaseException):
+            raise r
 
     def _runnable(self, t):
         if t.state == "ready":
@@ -384,18 +434,22 @@ class Ctx:
                 return True
         return False
 
-    def _dispatch(self, me, final=False):
+    def _dispatch(self, me, final=False, preempted=False):
         """Pick the next task and hand it the baton.  `me` is the caller (a
         Task, or None for the main thread)."""
+        self.in_sched = True
         try:
             nxt = self._pick(me)
-        except BaseException as e:      # Hang / HarnessError inside scheduler
-            self._end_reason = e
+        except BaseException as e:      # Hang / HarnessError / model error inside the scheduler
+            if self._end_reason is None:
+                self._end_reason = e
             nxt = None
+        finally:
+            self.in_sched = False
         if nxt is me and me is not None and not final:
             return
         if nxt is None:
-            # run over
+            # the run is over
             self.current = None
             self.main_sem.release()
             if me is not None and not final:
@@ -420,7 +474,11 @@ class Ctx:
                 fn()
             if self._end_reason is not None:
                 return None
-            fg = [t for t in self.tasks if t.state != "done" and not t.daemon_task]
+            fg = False
+            for t in self.tasks:
+                if t.state != "done" and not t.daemon_task:
+                    fg = True
+                    break
             if not fg:
                 return None
             cands = [t for t in self.tasks if self._runnable(t)]
@@ -440,43 +498,43 @@ class Ctx:
                     if nxt is None or t.deadline < nxt:
                         nxt = t.deadline
             if nxt is None:
-                blocked = [t.name for t in fg]
-                raise Hang("tasks blocked forever: %s" % ",".join(blocked))
+                blocked = ["%s(%s)" % (t.name, t.what) for t in self.tasks if t.state == "blocked" and not t.daemon_task]
+                raise Hang("tasks blocked forever: %s" % ", ".join(blocked))
             if nxt > self.now:
                 self.now = nxt
 
     def _choose(self, cands, me):
         self.contested += 1
         pol = self.sched_policy
-        if pol == 0:
+        if pol == 0 or me is None or me not in cands:
             i = self.choice(len(cands), "sched")
+        elif self.chance(1, pol, "switch"):
+            # change point: somebody else runs
+            others = [t for t in cands if t is not me]
+            i = cands.index(others[self.choice(len(others), "sched")])
         else:
-            # sticky: keep running the current task unless a change point fires
-            if me is not None and me in cands and not self.chance(1, pol, "switch"):
-                i = cands.index(me)
-            else:
-                i = self.choice(len(cands), "sched")
+            i = cands.index(me)
         c = cands[i]
         self.sched_hash.update(("%s/%d;" % (c.name, len(cands))).encode())
         return c
 
-    sched_policy = 0
-    _end_reason = None
-    threaded_finished = False
-
     def _yield_t(self):
+        if self.aborting:
+            raise SimAbort()
         me = self.current
-        if me is None or threading.current_thread() is not me.thread:
-            return          # scheduler context (event callback) - no yield
+        if me is None or self.in_sched or threading.current_thread() is not me.thread:
+            return          # scheduler / main-thread context: no yield
         self._dispatch(me)
 
     def _wait_t(self, pred, deadline, what):
+        if self.aborting:
+            raise SimAbort()
         me = self.current
-        if me is None or threading.current_thread() is not me.thread:
-            # called from scheduler context: cannot block
+        if me is None or self.in_sched or threading.current_thread() is not me.thread:
+            # called from scheduler or main-thread context: cannot block
             if pred():
                 return True
-            raise HarnessError("blocking wait in scheduler context: %s" % what)
+            raise HarnessError("blocking wait outside a task: %s" % what)
         if pred():
             # still a scheduling point
             self._dispatch(me)
@@ -484,13 +542,10 @@ class Ctx:
                 return True
         me.pred = pred
         me.deadline = deadline
+        me.what = what
         me.state = "blocked"
         me.timed_out = False
         self._dispatch(me)
         me.pred = None
         me.deadline = None
         return not me.timed_out
-
-    def end_run(self, reason):
-        """Called from a task to end the whole run (violation found)."""
-        self._end_reason = reason
